@@ -43,7 +43,7 @@ ASSUMPTIONS = [
     "namespaces: types; predicates+functions; actions; objects+constants; parameters and variables within one action",
 ]
 SHARD_TIMEOUT = {"quick": 600, "thorough": 3000}
-N_CASES = {"quick": 480, "thorough": 10000}
+N_CASES = {"quick": 420, "thorough": 6400}
 
 PROFILE = dict(
     object_fluents=False,
@@ -142,6 +142,8 @@ def make_recipe(key):
     temporal = i % 3 == 2
     if i % 5 == 0:
         prof.update(traj=1.0)
+    if i % 7 == 0 and not temporal:
+        prof.update(metric="any")
     g = G38(rng, prof)
     rec = g.gen()
     rec["name"] = rng.choice(["gen", "Gen Problem", "1st", "and", "domain", "a-b", None, "x.y", "é"])
@@ -159,7 +161,25 @@ def make_recipe(key):
         rec["timed_goals"] = []
         rec.pop("metric", None)
     rec = idents_pn.rename_locals(rec, rng, nm)
+    if i % 14 == 0 and rec.get("metric") and not any(f["name"].lower() == "total-cost" for f in rec["fluents"]):
+        # directed: a user fluent carrying the name PDDL's :action-costs convention (and the writer) uses for the cost function
+        old = rng.choice(rec["fluents"])["name"]
+        rec = _rename_fluent(rec, old, rng.choice(["total-cost", "total-cost", "Total-Cost"]))
+        nm.classes.add("pddl-keyword")
     return rec, sorted(g.feat), sorted(nm.classes), temporal
+
+
+def _rename_fluent(o, old, new):
+    if isinstance(o, list):
+        if len(o) >= 2 and o[0] == "f" and o[1] == old:
+            return ["f", new] + [_rename_fluent(x, old, new) for x in o[2:]]
+        return [_rename_fluent(x, old, new) for x in o]
+    if isinstance(o, dict):
+        out = {k: _rename_fluent(v, old, new) for k, v in o.items()}
+        if out.get("name") == old and "sig" in out and "type" in out:
+            out["name"] = new
+        return out
+    return o
 
 
 def naive(n):
@@ -326,7 +346,8 @@ def judge_pddl(pb, rec, groups, wbase, res, temporal):
             if ns in ("type", "object", "fluent", "action") or ns.startswith("params:"):
                 k = n.lower()
                 if k in low:
-                    viol(f"text-duplicate-declaration:{ns.split(':')[0]}", f"the written text declares {n!r} twice in namespace {ns}", namespace=ns, observed=n)
+                    special = ":total-cost" if k == "total-cost" else ""
+                    viol(f"text-duplicate-declaration:{ns.split(':')[0]}{special}", f"the written text declares {n!r} twice in namespace {ns}", namespace=ns, observed=n)
                     ok = False
                 low[k] = n
             # name -> item -> name
